@@ -180,6 +180,27 @@ class Built:
     pass
 
 
+_STATE_ENUMS = {}
+
+
+def state_object(spec, k, name):
+    """The object that names state `name` of FSM k in the real design: the string itself, its index as a Python
+    int (so one state is called 0), or a member of an IntEnum (whose first member has the value 0)."""
+    f = spec.fsms[k]
+    kind = f.get("names", "str")
+    if kind == "str":
+        return name
+    idx = f["states"].index(name)
+    order = f.get("name_values") or list(range(len(f["states"])))
+    if kind == "int":
+        return order[idx]
+    key = (tuple(f["states"]), tuple(order))
+    if key not in _STATE_ENUMS:
+        import enum
+        _STATE_ENUMS[key] = enum.IntEnum("St", {n: v for n, v in zip(f["states"], order)})
+    return _STATE_ENUMS[key][name]
+
+
 def make_sync_domain(negedge=False):
     """The "sync" domain of a generated program; when it is clocked on the falling edge its clock signal idles
     at 1 from time 0 on, so that hand-pulsed harnesses can speak of "the active edge" for either polarity."""
@@ -248,16 +269,16 @@ def _build_stmts(spec, b, stmts):
             f = spec.fsms[k]
             kw = {}
             if f["init"] is not None:
-                kw["init"] = f["init"]
+                kw["init"] = state_object(spec, k, f["init"])
             with m.FSM(name=f"fsm{k}", **kw) as fsm:
                 b.fsm_objs[k] = fsm
                 for name in f.get("mention") or f["states"]:
-                    b.sigs[spec.ongoing_index[(k, name)]] = fsm.ongoing(name)
+                    b.sigs[spec.ongoing_index[(k, name)]] = fsm.ongoing(state_object(spec, k, name))
                 for name, body in st[2]:
-                    with m.State(name):
+                    with m.State(state_object(spec, k, name)):
                         _build_stmts(spec, b, body)
         elif op == "next":
-            m.next = st[2]
+            m.next = state_object(spec, st[1], st[2])
         elif op in ("print", "assert"):
             b.extra(spec, b, st)
         else:
@@ -298,7 +319,14 @@ class Gen:
             mention = list(states)
             if rng.random() < 0.5:
                 rng.shuffle(mention)
-            fsms.append({"states": states, "init": init, "mention": mention})
+            fsm = {"states": states, "init": init, "mention": mention}
+            if rng.random() < 0.35:
+                # states named by Python ints or IntEnum members; the value 0 need not belong to the first state
+                fsm["names"] = rng.choice(["int", "intenum"])
+                vals = list(range(n))
+                rng.shuffle(vals)
+                fsm["name_values"] = vals
+            fsms.append(fsm)
         d = {"inputs": inputs, "comb": comb, "sync": sync, "fsms": fsms, "stmts": []}
         sp = Spec(d)
         self.sp = sp
